@@ -26,6 +26,7 @@ class TLCResult:
         self.distinct = int(m[-1][1]) if m else 0
         self.violated = re.findall(r"Error: Invariant (\S+) is violated", out)
         self.violated += re.findall(r"Error: Action property (\S+) is violated", out)
+        self.violated += re.findall(r"Error: Temporal property (\S+) was violated", out)
         if "Temporal properties were violated" in out:
             self.violated.append("<temporal>")
         if "Error: Deadlock reached" in out:
